@@ -830,6 +830,48 @@ fn cose_struct_sweep(stats: &mut Stats) {
     }
 }
 
+/// Every length of well-formed base64 / base64url text (with and without padding) up to `max`
+/// decoded bytes, through the three text entry points and a JSON `Bytes` member: a decoder with a
+/// size-dependent fast path must not have a boundary at which it panics.
+fn base64_lengths(max: usize, threads: usize) -> Stats {
+    use crate::oracles::b64;
+    par::sweep(max + 1, threads, 64, |n, st| {
+        let bytes: Vec<u8> = (0..n).map(|i| (i * 7 + n) as u8 | 0xC0).collect();
+        for (form, text) in [("base64url", b64::url_nopad(&bytes)), ("base64url-padded", b64::url_pad(&bytes)), ("base64", b64::std_nopad(&bytes)), ("base64-padded", b64::std_pad(&bytes))] {
+            let case = json!({"base64_length": {"decoded_bytes": n, "form": form}});
+            st.case(&(n, form), n > 0, "base64-length");
+            let r = par::catch(|| {
+                let a = Bytes::try_from(text.as_str()).ok().map(|b| b.to_vec());
+                let b = encoding::try_from_base64url(&text);
+                let c = ();
+                let d = serde_json::from_str::<Bytes>(&format!("\"{text}\"")).ok().map(|b| b.to_vec());
+                (a, b, c, d)
+            });
+            match r {
+                Err(p) => st.finding(Finding::new(format!("decoder=base64-text/site={}/kind={}", site_file(&p), panic_class(&p)), format!("decoding {form} text of {n} bytes ({} characters) panicked: {p}", text.len()), case)),
+                Ok((a, _, _, d)) => {
+                    // the lenient entry points accept every spelling and give the bytes back
+                    if a.as_deref() != Some(&bytes[..]) || d.as_deref() != Some(&bytes[..]) {
+                        st.finding(Finding::new("decoder=base64-text/kind=well-formed-text-not-decoded", format!("{form} text of {n} bytes: Bytes::try_from gives {:?} bytes, JSON Bytes gives {:?} bytes", a.map(|x| x.len()), d.map(|x| x.len())), case));
+                    }
+                }
+            }
+        }
+    })
+}
+
+fn base64_lengths_one(n: usize) -> Stats {
+    // the sweep function over a window that contains only n
+    let mut st = Stats::new();
+    let all = base64_lengths(n, 1);
+    for (k, (f, c)) in all.findings {
+        if f.case["base64_length"]["decoded_bytes"].as_u64() == Some(n as u64) {
+            st.findings.insert(k, (f, c));
+        }
+    }
+    st
+}
+
 pub fn run(ctx: &Ctx) -> Result<Run, String> {
     let sp = Space::new(ctx.tier);
     let n = sp.len();
@@ -837,6 +879,9 @@ pub fn run(ctx: &Ctx) -> Result<Run, String> {
     let mut stats = iso::run(&sp, &cfg)?;
     stats.count("isolated_cases", n as u64);
     cose_struct_sweep(&mut stats);
+    let bl = base64_lengths(ctx.tier.pick(4200, 20_000), ctx.threads);
+    stats.count("base64_length_cases", bl.evaluations);
+    stats.merge(bl);
     // (4) scaling families, each family x key pattern in its own isolated worker slot
     let scale = super::c15_scale::ScaleSpace::new(ctx.tier);
     let ns = scale.len();
@@ -850,7 +895,7 @@ pub fn run(ctx: &Ctx) -> Result<Run, String> {
     let ndec = sp.decs.len();
     let mut run = Run::from_stats(
         "exploration",
-        "for each of 28 public decoders (CTAP2 CBOR messages, authenticator data, WebAuthn JSON, base64, U2F raw messages, COSE-key converter, fingerprints, asset links, RP-ID verification, public-suffix lookups): (1) all byte strings up to length 2 (3 thorough) / all strings over an 8-symbol alphabet up to length 5 (7 thorough); (2) every single deviation of valid seed encodings of every message type: truncation at every position, every byte value at every position (CBOR/binary; a 17-symbol menu for JSON/text), and splices at every position of CBOR heads of every major type with declared lengths 2^8..2^64-1 / indefinite, 300- and 100000-deep nesting, JSON structure/number/escape fragments, long and dotted labels (thorough: all pairs of byte-level deviations on short seeds); run in isolated worker processes with a counting allocator (single request > 4 MiB + 32 x input length, or > 256 MiB in total = out of proportion; > 1 GiB refused), 8 MiB stack, per-case watchdog; (2b) COSE keys built as structs (0..2 entries per coordinate from a menu of lengths and types, three label orders, repeated labels included) given to the converter directly; (4) scaling families: 14 well-formed message shapes whose collection (PRF per-credential map, allow/exclude list, parameter list, unknown members, COSE parameters, JSON lists and maps, base64 text) grows to 256, 1024, 4096, 16384 (thorough: 65536) elements, with ids/keys that differ only at the front, only at the end or only in the middle, decoded in isolated workers: 4x the elements may not cost more than 9x the CPU time (judged once the larger run exceeds 10 ms, confirmed by a second measurement) nor an allocation out of proportion; (3) CTAPHID: BFS over packet sequences on the real ChannelHandler (alphabet: 2 channels x 8 init heads + 4 continuation sequence numbers x 13 packet sizes), deduplicated on the hook snapshot. Non-trivial = distinct non-empty input",
+        "for each of 28 public decoders (CTAP2 CBOR messages, authenticator data, WebAuthn JSON, base64, U2F raw messages, COSE-key converter, fingerprints, asset links, RP-ID verification, public-suffix lookups): (1) all byte strings up to length 2 (3 thorough) / all strings over an 8-symbol alphabet up to length 5 (7 thorough); (2) every single deviation of valid seed encodings of every message type: truncation at every position, every byte value at every position (CBOR/binary; a 17-symbol menu for JSON/text), and splices at every position of CBOR heads of every major type with declared lengths 2^8..2^64-1 / indefinite, 300- and 100000-deep nesting, JSON structure/number/escape fragments, long and dotted labels (thorough: all pairs of byte-level deviations on short seeds); run in isolated worker processes with a counting allocator (single request > 4 MiB + 32 x input length, or > 256 MiB in total = out of proportion; > 1 GiB refused), 8 MiB stack, per-case watchdog; (2c) well-formed base64 / base64url text, padded or not, of every decoded length 0..4200 (thorough 20000) through Bytes::try_from, try_from_base64url and a JSON Bytes member (must decode to the bytes; no panic at any size boundary); (2b) COSE keys built as structs (0..2 entries per coordinate from a menu of lengths and types, three label orders, repeated labels included) given to the converter directly; (4) scaling families: 14 well-formed message shapes whose collection (PRF per-credential map, allow/exclude list, parameter list, unknown members, COSE parameters, JSON lists and maps, base64 text) grows to 256, 1024, 4096, 16384 (thorough: 65536) elements, with ids/keys that differ only at the front, only at the end or only in the middle, decoded in isolated workers: 4x the elements may not cost more than 9x the CPU time (judged once the larger run exceeds 10 ms, confirmed by a second measurement) nor an allocation out of proportion; (3) CTAPHID: BFS over packet sequences on the real ChannelHandler (alphabet: 2 channels x 8 init heads + 4 continuation sequence numbers x 13 packet sizes), deduplicated on the hook snapshot. Non-trivial = distinct non-empty input",
         true,
         stats,
     );
@@ -878,6 +923,11 @@ pub fn replay(_ctx: &Ctx, case: &Value) -> Result<Vec<Finding>, String> {
             }
         }
         return Err("scaling family not found".into());
+    }
+    if let Some(b) = case.get("base64_length") {
+        let n = b["decoded_bytes"].as_u64().unwrap_or(0) as usize;
+        let st = base64_lengths_one(n);
+        return Ok(st.findings.into_values().map(|x| x.0).filter(|f| f.case == *case).collect());
     }
     if case.get("cose_struct").is_some() {
         let mut st = Stats::new();
